@@ -52,6 +52,7 @@ type Op struct {
 	Scs [][]bool `json:"scs,omitempty"` // mount: scripts of the target and of the neighbours (in manifest order)
 	Ok1 bool     `json:"ok1,omitempty"`
 	Ok2 bool     `json:"ok2,omitempty"`
+	Vf  string   `json:"vf,omitempty"` // mount: verification asked of Mount: ok | skip | mismatch | bad | none
 	Rf  string   `json:"rf,omitempty"` // check: what the registry answers to the Refresh: ok | err | size | content
 }
 
@@ -63,6 +64,7 @@ type Case struct {
 
 var (
 	blobs   [nlayers][]byte
+	tocs    [nlayers]digest.Digest
 	wrong   [nlayers][3][]byte // per layer: 0 = the blob, 1 = a blob of another size, 2 = same size and other content
 	digests [nlayers]digest.Digest
 	files   [nlayers][]byte
@@ -92,6 +94,7 @@ func buildBlobs() {
 			panic(err)
 		}
 		b.Close()
+		tocs[i] = b.TOCDigest()
 		digests[i] = digest.FromBytes(blobs[i])
 		other := make([]byte, len(blobs[i]))
 		for j, c := range blobs[i] {
@@ -236,6 +239,25 @@ func labelsOf(name int) map[string]string {
 	return map[string]string{"verif/name": fmt.Sprint(name)}
 }
 
+// mountLabels: how Mount is asked to verify the layer: ok = right TOC digest, skip = skip-verify label (allowed),
+// mismatch = a well-formed but wrong TOC digest, bad = unparsable digest label, none = no label at all
+func mountLabels(name int, vf string) map[string]string {
+	l := labelsOf(name)
+	switch vf {
+	case "", "ok":
+		l[estargz.TOCJSONDigestAnnotation] = tocs[name%nlayers].String()
+	case "skip":
+		l[config.TargetSkipVerifyLabel] = "true"
+	case "mismatch":
+		l[estargz.TOCJSONDigestAnnotation] = digest.FromString("something else").String()
+	case "bad":
+		l[estargz.TOCJSONDigestAnnotation] = "sha256:not-a-digest"
+	}
+	return l
+}
+
+func verifies(vf string) bool { return vf == "" || vf == "ok" || vf == "skip" }
+
 func newMachine() *machine {
 	base := ""
 	if st, e := os.Stat("/dev/shm"); e == nil && st.IsDir() {
@@ -281,7 +303,7 @@ func newMachine() *machine {
 	cfg.ResolveResultEntryTTLSec = 3600
 	cfg.NoPrefetch = true
 	cfg.NoBackgroundFetch = true
-	cfg.DisableVerification = true
+	cfg.AllowNoVerification = true
 	cfg.NoPrometheus = true
 	f, err := fs.NewFilesystem(root, cfg, fs.WithGetSources(getSources), fs.WithResolveHandler("mem", &handler{m}), fs.WithMetadataStore(store))
 	if err != nil {
@@ -389,7 +411,7 @@ func (m *machine) apply(o Op) {
 		}
 		m.mu.Unlock()
 		fs.VerifNoFuseC15(mpPath(o.Mp), true)
-		err := m.f.Mount(ctx, mpPath(o.Mp), labelsOf(o.N))
+		err := m.f.Mount(ctx, mpPath(o.Mp), mountLabels(o.N, o.Vf))
 		m.settle()
 		m.mu.Lock()
 		m.scripts = map[int][]bool{}
@@ -399,11 +421,17 @@ func (m *machine) apply(o Op) {
 		if err != nil {
 			ev = "EErr"
 			m.stats["result.mount.err"]++
+			if !verifies(o.Vf) {
+				m.stats["result.mount.refused."+o.Vf]++
+			}
 			if l != nil {
 				m.problem("Mount failed but left a layer registered under the mountpoint")
 			}
 		} else {
 			m.stats["result.mount.ok"]++
+			if !verifies(o.Vf) {
+				m.problem("Mount succeeded although the layer could not be verified (%s)", o.Vf)
+			}
 			m.mounted[o.Mp] = o.N
 			if l == nil {
 				m.problem("Mount succeeded without registering a layer")
@@ -412,7 +440,7 @@ func (m *machine) apply(o Op) {
 			}
 		}
 		m.stats["op.mount"]++
-		m.record(fmt.Sprintf("CMount %d %d [%s] %s", o.Mp, o.N, strings.Join(nbs, "; "), hx.CoqList(scs)), ev)
+		m.record(fmt.Sprintf("CMount %d %d %s [%s] %s", o.Mp, o.N, hx.CoqBool(verifies(o.Vf)), strings.Join(nbs, "; "), hx.CoqList(scs)), ev)
 	case "check":
 		if o.Mp < 0 || o.Mp >= nmps {
 			return
@@ -610,7 +638,8 @@ func gen(r *hx.Rng) Case {
 		var o Op
 		switch r.Pick(30, 18, 16, 10, 12, 10, 12) {
 		case 0:
-			o = Op{Op: "mount", Mp: r.Intn(nmps), N: r.Pick(4, 3, 2, 2, 1, 1), Scs: [][]bool{genScript(r), genScript(r), genScript(r)}}
+			o = Op{Op: "mount", Mp: r.Intn(nmps), N: r.Pick(4, 3, 2, 2, 1, 1), Scs: [][]bool{genScript(r), genScript(r), genScript(r)},
+				Vf: []string{"ok", "skip", "mismatch", "bad", "none"}[r.Pick(9, 3, 3, 2, 2)]}
 		case 1:
 			o = Op{Op: "check", Mp: r.Intn(nmps), Ok1: r.Chance(1, 3), Rf: []string{"ok", "err", "size", "content"}[r.Pick(3, 3, 4, 1)]}
 		case 2:
@@ -669,6 +698,21 @@ func main() {
 		// cached and never-read chunks; an accepted one installs the new fetcher; two mountpoints share the layer
 		Case{Ops: []Op{{Op: "mount", Mp: 0, N: 0}, {Op: "mount", Mp: 1, N: 0}, P(0), K(0, false, "size"), P(0), P(1), {Op: "use", Mp: 1}, K(1, false, "err"), P(1), K(0, false, "ok"), P(0), K(0, true, "size"), K(1, false, "size"), P(0), {Op: "unmount", Mp: 0}, P(1), {Op: "use", Mp: 1}}},
 		Case{Ops: []Op{{Op: "mount", Mp: 2, N: 4}, K(2, false, "content"), P(2), {Op: "use", Mp: 2}, K(2, false, "size"), P(2), K(2, false, "ok"), P(2)}},
+	)
+	V := func(mp, n int, vf string) Op { return Op{Op: "mount", Mp: mp, N: n, Vf: vf} }
+	X := func(n int) []Op { return []Op{{Op: "expl", N: n}, {Op: "expb", N: n}} }
+	cat := func(xs ...[]Op) (r []Op) {
+		for _, x := range xs {
+			r = append(r, x...)
+		}
+		return
+	}
+	corpus = append(corpus,
+		// Mount resolves the layer and is then refused at each verification stage (wrong TOC digest, unparsable label, no label);
+		// nothing is registered, and after expiry everything is reclaimed; then the same layer mounts and serves
+		Case{Ops: cat([]Op{V(0, 0, "mismatch")}, X(0), X(1), X(2), []Op{V(0, 0, "bad")}, X(0), X(1), X(2), []Op{V(0, 0, "none")}, X(0), X(1), X(2), []Op{V(0, 0, "ok"), {Op: "use", Mp: 0}})},
+		// refused while another mountpoint holds the same (verified / skip-verified) layer: the holder keeps serving, the refused reference is released
+		Case{Ops: cat([]Op{V(0, 1, "ok"), V(1, 1, "mismatch"), V(2, 1, "none"), {Op: "use", Mp: 0}}, X(1), []Op{{Op: "use", Mp: 0}, {Op: "unmount", Mp: 0}, V(3, 2, "skip"), V(1, 2, "bad"), {Op: "use", Mp: 3}, {Op: "unmount", Mp: 3}}, X(2))},
 	)
 	for _, c := range corpus {
 		emit(c)
